@@ -140,6 +140,26 @@ def h_add_edges_from_iter(ctx, H, P):
         H.add_edges_from({i: iter([a, b])})
 
 
+def h_add_edges_from_setarg(ctx, H, P):
+    """Members given as a set object that the caller edits afterwards: the network
+    must have stored its own copy."""
+    a, b = ctx.fresh(), ctx.fresh()
+    fmt = ctx.choose("fmt", 4)
+    i = ctx.fresh("i")
+    mem = set([a, b])
+    _rec(ctx, members=[a, b], fmt=["add_edge", 1, 2, 5][fmt], idx=i)
+    if fmt == 0:
+        H.add_edge(mem, idx=i)
+    elif fmt == 1:
+        H.add_edges_from([mem])
+    elif fmt == 2:
+        H.add_edges_from([(mem, i)])
+    else:
+        H.add_edges_from({i: mem})
+    mem.add(ctx.fresh())  # the caller keeps using its own set
+    mem.discard(a)
+
+
 def h_add_edge_stridx(ctx, H, P):
     mem = _members(ctx, 2)
     _rec(ctx, members=mem, idx="edge-s")
@@ -332,6 +352,7 @@ OPS_H = {
         h_add_edge_none,
         h_add_edges_from_none,
         h_add_edges_from_iter,
+        h_add_edges_from_setarg,
         h_none_ids,
         h_add_edge_stridx,
         h_add_edges_from_1,
@@ -456,6 +477,24 @@ def d_add_edge_none(ctx, D, P):
     idx = ctx.fresh("i") if ctx.flag("use_idx") else None
     _rec(ctx, members=mem, idx=idx)
     D.add_edge(mem, idx=idx)
+
+
+def d_add_edges_from_none(ctx, D, P):
+    """None as a tail/head member inside a bulk call (formats 1, 2, 4 and 5)."""
+    a, b = ctx.fresh(), ctx.fresh()
+    fmt = ctx.choose("fmt", 4)
+    pos = ctx.choose("pos", 3)
+    mem = [([a, None], [b]), ([a], [None, b]), ([None], [])][pos]
+    i = ctx.fresh("i")
+    _rec(ctx, members=mem, fmt=[1, 2, 4, 5][fmt], idx=i)
+    if fmt == 0:
+        D.add_edges_from([mem])
+    elif fmt == 1:
+        D.add_edges_from([(mem, i)])
+    elif fmt == 2:
+        D.add_edges_from([(mem, i, {"k": a})])
+    else:
+        D.add_edges_from({i: mem})
 
 
 def _dibulk(ctx, P):
@@ -611,6 +650,7 @@ OPS_D = {
         d_remove_nodes_from,
         d_add_edge,
         d_add_edge_none,
+        d_add_edges_from_none,
         d_add_edges_from_iter,
         d_none_ids,
         d_add_edges_from_1,
